@@ -276,135 +276,114 @@ def main():
                 nontriv.add((c["kind"], c["note"], t, sex, tuple(c["comps"])))
         if len(chk.cov["samples"]) < 8 and chk.cov["evaluations"] % 97 == 5:
             chk.sample({"kind": c["kind"], "what": c["note"], "type": NAMES[t], "endian": sex, "frameoffset": c["off"], "spf": c["spf"], "n": c["n"], "op": c["script"][c["iop"]], "result": opres})
-    # ------------------------------------------------------------------ E: two fragments, gd_move / gd_rename with data,
-    # GD_ALL_FRAGMENTS, sequences of operations, fields that refer to the restructured one
-    open_keys = set(f["key"] for f in chk.known) if not os.environ.get("VERIF_ASSUME_FIXED") else set()
+    # ------------------------------------------------------------------ E: a three-level include tree (format -> sub1.format ->
+    # sub2.format), every level with its own encoding / byte order / frame offset; RAW fields on every level; fields that
+    # refer to them in first and second input position (LINCOM, PHASE, MULTIPLY, MPLEX both ways, WINDOW both ways, INDIR
+    # over a CARRAY, a LINCOM whose scale is a CONST); sequences of gd_move / gd_rename (GD_REN_DATA|GD_REN_UPDB) of RAW
+    # and scalar fields and alter_encoding / _endianness / _frameoffset on one fragment or GD_ALL_FRAGMENTS.
+    # Oracle: EVERY field reads as before the operations -- through the same handle and after reopening.
+    import struct as _st
     scen = []
     nscen = 60 if not chk.thorough else 600
-    import struct as _st
+    F0 = 4          # data start at frame 4: above every frame offset in play, so nothing is dropped
     for si in range(nscen):
         t = rng.choice([1, 4, 9])
-        tsz = TSIZE[t]
         spf = rng.choice([1, 2])
-        # stay inside the region the partial theorems cover while the corresponding findings are open
-        text_ok_sexes = ["l"] if KEY_TEXT in open_keys else ["l", "b"]
-        encs = [rng.choice(ENCS), rng.choice(ENCS)]
-        sexs = [rng.choice(["l", "b"]), rng.choice(["l", "b"])]
-        offs = [rng.choice([0, 1, 3]), rng.choice([0, 1, 3])]
+        encs = [rng.choice(ENCS) for _ in range(3)]
+        sexs = [rng.choice(["l", "b"]) for _ in range(3)]
+        offs = [rng.choice([0, 1, 3]) for _ in range(3)]
         nfr = rng.choice([3, 6, 20])
         n = nfr * spf
         if ISFLOAT[t]:
-            comps = [_st.unpack("<Q", _st.pack("<d", float(rng.randint(-40, 40))))[0] for _ in range(n)]
+            acomps = [_st.unpack("<Q", _st.pack("<d", float(rng.randint(-4, 40))))[0] for _ in range(n)]
         else:
-            comps = [rng.randint(0, 100) for _ in range(n)]
+            acomps = [rng.randint(0, 100) for _ in range(n)]
+        bvals = [rng.randint(0, 2) for _ in range(nfr)]
+        cvals = [rng.randint(0, 255) for _ in range(5)]
+        evals = [rng.randint(0, 1 << 20) for _ in range(7)]
         d = os.path.join(root, "s%d" % si); os.mkdir(d)
+        hdr = lambda g: "/ENCODING %s\n%s\n/FRAMEOFFSET %d\n" % (encs[g], gdlib.sex_directive(sexs[g]), offs[g])
         open(os.path.join(d, "format"), "w").write(
-            "/ENCODING %s\n%s\n/FRAMEOFFSET %d\na RAW %s %d\nl LINCOM a 2 1\np PHASE a 1\n/INCLUDE sub.format\n" % (
-                encs[0], gdlib.sex_directive(sexs[0]), offs[0], NAMES[t], spf))
-        open(os.path.join(d, "sub.format"), "w").write(
-            "/ENCODING %s\n%s\n/FRAMEOFFSET %d\nc RAW UINT8 1\n" % (encs[1], gdlib.sex_directive(sexs[1]), offs[1]))
-        F0 = 4          # data start at frame 4: above every frame offset in play, so nothing is dropped
-        state = {"frag": 0, "name": "a", "enc": list(encs), "sex": list(sexs), "off": list(offs)}
+            hdr(0) + "a RAW %s %d\nb RAW UINT8 1\nk CONST INT32 2\nca CARRAY FLOAT64 1.5 2.5 3.5 4.5\n"
+            "l LINCOM a 2 1\np PHASE a 1\nmu MULTIPLY b a\nmab MPLEX a b 1\nmba MPLEX b a 1\nwab WINDOW a b GE 1\n"
+            "wba WINDOW b a GT 0\nin INDIR b ca\nlk LINCOM a k 0\n/INCLUDE sub1.format\n" % (NAMES[t], spf))
+        open(os.path.join(d, "sub1.format"), "w").write(hdr(1) + "c RAW UINT8 1\n/INCLUDE sub2.format\n")
+        open(os.path.join(d, "sub2.format"), "w").write(hdr(2) + "e RAW INT32 1\npe PHASE e 1\n")
+        names = {"a": "a", "b": "b", "c": "c", "e": "e", "k": "k", "ca": "ca"}     # original -> current name
+        frag = {"a": 0, "b": 0, "c": 1, "e": 2}
         ops = []
-        for _ in range(rng.randint(1, 4)):
-            k = rng.choice(["move", "rename", "enc", "end", "off", "enc_all", "end_all", "off_all"])
-            fr = state["frag"]
+        for oi in range(rng.randint(1, 4)):
+            k = rng.choice(["move", "rename", "rename", "enc", "end", "off", "enc_all", "end_all", "off_all"])
             if k == "move":
-                nf_ = 1 - fr
-                ops.append(("move %s %d %d" % (state["name"], nf_, GD_REN_DATA), ("frag", nf_)))
+                x = rng.choice(["a", "b", "c", "e"])
+                g2 = rng.choice([g for g in (0, 1, 2) if g != frag[x]])
+                ops.append("move %s %d %d" % (names[x], g2, GD_REN_DATA)); frag[x] = g2
             elif k == "rename":
-                nn = "z%d" % len(ops)
-                ops.append(("rename %s %s %d" % (state["name"], nn, GD_REN_DATA | 2), ("name", nn)))
+                x = rng.choice(["a", "a", "b", "c", "e", "k", "ca"])
+                nn = "z%d%d" % (si % 7, oi)
+                ops.append("rename %s %s %d" % (names[x], nn, GD_REN_DATA | 2)); names[x] = nn
             elif k in ("enc", "enc_all"):
-                e2 = rng.choice(ENCS)
-                ops.append(("alter_encoding %s %d 1" % (e2, -1 if k == "enc_all" else fr), ("enc", e2, k == "enc_all")))
+                ops.append("alter_encoding %s %d 1" % (rng.choice(ENCS), -1 if k == "enc_all" else rng.choice([0, 1, 2])))
             elif k in ("end", "end_all"):
-                s2 = rng.choice(["l", "b"])
-                ops.append(("alter_endianness %s 0 %d 1" % ("big" if s2 == "b" else "little", -1 if k == "end_all" else fr), ("sex", s2, k == "end_all")))
+                ops.append("alter_endianness %s 0 %d 1" % (rng.choice(["big", "little"]), -1 if k == "end_all" else rng.choice([0, 1, 2])))
             else:
-                o2 = rng.choice([0, 1, 3])
-                ops.append(("alter_frameoffset %d %d 1" % (o2, -1 if k == "off_all" else fr), ("off", o2, k == "off_all")))
-            # track the state and drop operations that enter a region with an open finding
-            eff = ops[-1][1]
-            st2 = {x: (list(v) if isinstance(v, list) else v) for x, v in state.items()}
-            if eff[0] == "frag":
-                st2["frag"] = eff[1]
-            elif eff[0] == "name":
-                st2["name"] = eff[1]
-            elif eff[0] in ("enc", "sex", "off"):
-                for f_ in ((0, 1) if eff[2] else (fr,)):
-                    st2[eff[0]][f_] = eff[1]
-            risky = False
-            # every RAW field that passes through _GD_MogrifyFile: (size in bytes of its data, from, to)
-            passes = []
-            fa, fb = state["frag"], st2["frag"]
-            passes.append((((F0 - min(state["off"][fa], st2["off"][fb])) * spf + n) * tsz, (state["enc"][fa], state["sex"][fa], state["off"][fa]), (st2["enc"][fb], st2["sex"][fb], st2["off"][fb]), eff[0] == "frag"))
-            passes.append((5, (state["enc"][1], "l", state["off"][1]), (st2["enc"][1], "l", st2["off"][1]), False))
-            for nbytes, (ein, sin, oin), (eout, sout, oout), moved in passes:
-                if (ein, sin, oin) == (eout, sout, oout) and not moved:
-                    continue
-                if KEY_TEXT in open_keys and "text" in (ein, eout) and ("b" in (sin, sout)):
-                    risky = True
-                if KEY_TOSIE in open_keys and eout == "sie" and nbytes > 64:
-                    risky = True
-                if KEY_FOFF_OOP in open_keys and eout in ("gzip", "bzip2") and oout < oin:
-                    risky = True
-                if KEY_LZMASEEK in open_keys and eout == "lzma" and oout != oin:
-                    risky = True
-                if KEY_SAMEHANDLE in open_keys and ein == "lzma" and eout != "lzma":
-                    risky = True
-                if KEY_FOFF_OOP in open_keys and moved and ein != eout and oin != oout:
-                    risky = True      # gd_move across encodings AND offsets takes the same wrong branch of _GD_DoSeek
-            if eff[0] == "sex" and KEY_ENDTEXT in open_keys and "text" in [state["enc"][f_] for f_ in ((0, 1) if eff[2] else (fr,))]:
-                risky = True
-            if risky:
-                ops.pop()
-            else:
-                state = st2
-        if not ops:
-            continue
-        sc = ["open %s rw" % d, "put a %d %d 0 %d %s" % (t, F0, n, gdlib.hexs(comps)), "put c 1 %d 0 5 1 2 3 4 5" % F0, "close", "open %s rw" % d]
-        sc += [o for o, _ in ops]
-        nm = state["name"]
-        iget = len(sc)
-        sc += ["get %s %d %d 0 %d" % (nm, t, F0, n + 2), "get l 9 %d 0 %d" % (F0, n + 2), "get p %d %d 0 %d" % (t, F0, n + 2), "get c 1 %d 0 7" % F0, "close",
-               "open %s rw" % d, "get %s %d %d 0 %d" % (nm, t, F0, n + 2), "get l 9 %d 0 %d" % (F0, n + 2), "get c 1 %d 0 7" % F0, "close"]
-        scen.append({"dir": d, "script": sc, "iget": iget, "nops": len(ops), "t": t, "comps": comps, "n": n, "offs": list(state["off"]),
-                     "desc": "%s %s/%s %s/%s off %s" % (NAMES[t], encs[0], encs[1], sexs[0], sexs[1], offs)})
+                ops.append("alter_frameoffset %d %d 1" % (rng.choice([0, 1, 3]), -1 if k == "off_all" else rng.choice([0, 1, 2])))
+        derived = ["l", "p", "mu", "mab", "mba", "wab", "wba", "in", "lk", "pe"]
+
+        def reads(nm):
+            out = ["get %s %d %d 0 %d" % (nm["a"], t, F0, n + 2), "get %s 1 %d 0 %d" % (nm["b"], F0, nfr + 2),
+                   "get %s 1 %d 0 7" % (nm["c"], F0), "get %s 4 %d 0 9" % (nm["e"], F0)]
+            out += ["get %s 9 %d 0 %d" % (x, F0, n + 2) for x in derived]
+            return out
+        orig = {x: x for x in names}
+        sc = ["open %s rw" % d, "put a %d %d 0 %d %s" % (t, F0, n, gdlib.hexs(acomps)), "put b 1 %d 0 %d %s" % (F0, nfr, gdlib.hexs(bvals)),
+              "put c 1 %d 0 5 %s" % (F0, gdlib.hexs(cvals)), "put e 4 %d 0 7 %s" % (F0, gdlib.hexs(evals)), "close", "open %s rw" % d]
+        ib = len(sc); sc += reads(orig)
+        io = len(sc); sc += ops
+        ia_ = len(sc); sc += reads(names)
+        sc += ["close", "open %s rw" % d]
+        ir = len(sc); sc += reads(names)
+        sc += ["close"]
+        scen.append({"dir": d, "script": sc, "ib": ib, "io": io, "ia": ia_, "ir": ir, "nops": len(ops), "nread": len(reads(orig)), "t": t, "n": n,
+                     "raw": [acomps, bvals, cvals, evals], "labels": ["a", "b", "c", "e"] + derived,
+                     "desc": "%s spf %d, fragments %s / %s / offsets %s" % (NAMES[t], spf, "+".join(encs), "+".join(sexs), offs)})
     with ThreadPoolExecutor(max_workers=vlib.NPROC) as ex_:
         souts = list(ex_.map(lambda c: vlib.sh([exe], inp=("\n".join(c["script"]) + "\n").encode(), timeout=300), scen))
     for c, (rc, out) in zip(scen, souts):
         chk.cov["evaluations"] += 1
         dist["scenario"] = dist.get("scenario", 0) + 1
         r = out.rstrip("\n").split("\n")
-        t = c["t"]
         why = None
+        opsdesc = " ; ".join(c["script"][c["io"]:c["io"] + c["nops"]])
         if rc != 0 or len(r) != len(c["script"]):
             why = "gdrun died rc=%d: %s" % (rc, out[-200:])
         else:
-            for k in range(5, 5 + c["nops"]):
+            for k in range(c["io"], c["io"] + c["nops"]):
                 if r[k].split()[1:] != ["0", "0"]:
                     why = "%s -> %s" % (c["script"][k], r[k]); break
             if not why:
-                if ISFLOAT[t]:
-                    vals = [_st.unpack("<d", _st.pack("<Q", z))[0] for z in c["comps"]]
-                else:
-                    vals = [float(z) for z in c["comps"]]
-                wl = [_st.unpack("<Q", _st.pack("<d", 2 * v + 1))[0] for v in vals]
-                wp = c["comps"][1:]
-                ig = c["iget"]
-                for idx, want, nm_ in ((ig, c["comps"], "field"), (ig + 1, wl, "LINCOM"), (ig + 2, wp, "PHASE"), (ig + 3, [1, 2, 3, 4, 5], "other fragment's field"),
-                                       (ig + 6, c["comps"], "field after reopen"), (ig + 7, wl, "LINCOM after reopen"), (ig + 8, [1, 2, 3, 4, 5], "other fragment's field after reopen")):
-                    g = gdlib.parse_get(r[idx])
-                    if g is None or g[1] != 0 or g[2] != want:
-                        why = "%s: %s reads %s, expected %s" % (" ; ".join(c["script"][5:5 + c["nops"]]), nm_, r[idx][:120], gdlib.hexs(want)[:120])
+                before = [gdlib.parse_get(x) for x in r[c["ib"]:c["ib"] + c["nread"]]]
+                for j_, rawv in enumerate(c["raw"]):
+                    if before[j_] is None or before[j_][1] != 0 or before[j_][2] != rawv:
+                        why = "setup: RAW field %s does not read back before the operations: %s" % (c["labels"][j_], r[c["ib"] + j_][:120]); break
+            if not why:
+                for base, what in ((c["ia"], "through the same handle"), (c["ir"], "after reopening")):
+                    for j_ in range(c["nread"]):
+                        g = gdlib.parse_get(r[base + j_])
+                        bj = before[j_]
+                        if bj is None or bj[1] != 0:
+                            why = "setup: field %s cannot be read before the operations: %s" % (c["labels"][j_], r[c["ib"] + j_][:100]); break
+                        if g is None or g[1] != 0 or g[2] != bj[2]:
+                            why = "%s: field %s (%s) reads %s %s, before the operations it read %s" % (
+                                opsdesc, c["labels"][j_], c["script"][base + j_].split()[1], r[base + j_][:110], what, gdlib.hexs(bj[2])[:110])
+                            break
+                    if why:
                         break
-        if why and "after reopen" in why and c["offs"][1] == 0 and c["offs"][0] != 0:
-            spec_bad.setdefault(KEY_FOFF0, []).append(({"kind": "scenario", "dir": c["dir"], "t": t, "sex": "", "off": 0, "spf": 0, "n": c["n"], "script": c["script"], "enc": ""}, c["desc"] + ": " + why))
-        elif why:
-            spec_bad.setdefault("scenario/" + c["script"][5].split()[0], []).append(({"kind": "scenario", "dir": c["dir"], "t": t, "sex": "", "off": 0, "spf": 0, "n": c["n"], "script": c["script"], "enc": ""}, c["desc"] + ": " + why))
+        if why:
+            spec_bad.setdefault("scenario/" + c["script"][c["io"]].split()[0], []).append(
+                ({"kind": "scenario", "dir": c["dir"], "t": c["t"], "sex": "", "off": 0, "spf": 0, "n": c["n"], "script": c["script"], "enc": ""}, c["desc"] + ": " + why))
         else:
-            nontriv.add(("scenario", tuple(c["script"][5:5 + c["nops"]]), c["desc"]))
+            nontriv.add(("scenario", opsdesc, c["desc"]))
     dd_ = os.path.join(root, "endarg"); os.mkdir(dd_)
     open(os.path.join(dd_, "format"), "w").write("/ENCODING none\na RAW UINT16 1\n")
     rc, out = vlib.sh([exe], inp=("open %s rw\nalter_endianness_raw 0 0 0\nalter_endianness_raw 12 0 0\nalter_endianness_raw 8 0 0\nclose\n" % dd_).encode(), timeout=60)
